@@ -1188,6 +1188,14 @@ class H2Connection:
         if origin is not None and stream_id is not None:
             raise ValueError("Must not provide both origin and stream_id")
 
+        if self.config.client_side:
+            # RFC 7838 Section 4: only servers advertise. The state machine
+            # cannot tell this for a connection that has not carried a
+            # request yet.
+            raise ProtocolError(
+                "Clients cannot advertise alternative services."
+            )
+
         self.state_machine.process_input(
             ConnectionInputs.SEND_ALTERNATIVE_SERVICE
         )
